@@ -13,7 +13,79 @@ NOTE_COMMON = (
     "operands; deepcopy independence). Only explicit raise statements are control-flow edges. "
 )
 
+CONF = ("compositional obligation (taint-style) dataflow for set confinement over the handler call graph + CFG guard idioms "
+        "(static analysis, ast)")
+
 CLAIMS = {
+    "C01": dict(
+        technique=CONF + "; end-point candidate lint; kernel partial-operation guards by CFG dominance",
+        ref="DESIGN.md 3.1, 3 (C01)",
+        text=(
+            "Decides three structural necessary conditions of C01 for all operands: (1) confinement -- for every return "
+            "site of the 15 flat x flat handlers the result is a subset of both operands (guards: X in Y, X == Y, carrier "
+            "coincidence, all end points inside a convex operand; three numeric kernel axioms), so a carrier-line hit "
+            "returned without clipping, a dropped membership conjunct or a wrongly guarded end point is reported at the "
+            "offending statement; (2) every end point of each operand is offered as a candidate in the collinear "
+            "branches (whole-operand returns for nested half-lines), so overlaps are not reduced to one end point; (3) the "
+            "kernels' partial operations (division by n.dv, normalised cross products) are guarded by the parallel tests. "
+            "NOT decided: that the kernels compute the right coordinates, that no point is missed in generic position, "
+            "the tolerance band, None only when disjoint."
+        ),
+        note=NOTE_COMMON + "A4: the three numeric kernels and the membership predicates compute what their names say.",
+    ),
+    "C02": dict(
+        technique=CONF + "; sibling-summary comparison of the hit-set helpers; propositional exhaustiveness on the CFG",
+        ref="DESIGN.md 3.1, 3 (C02)",
+        text=(
+            "Decides structural necessary conditions of C02: confinement of every return site of the 10 flat x "
+            "{polygon, polyhedron} handlers and of the 3 hit-set helpers in both operands; boundary-family completeness "
+            "(faces AND edges of the polyhedron, the full edge cycle of the polygon, contained end points / origin added "
+            "under their membership test) with identical abstract summaries of the two sibling helpers; propositional "
+            "exhaustiveness of the end-point case split of segment x polyhedron. NOT decided: coordinates, the "
+            "longest-segment selection, hash-merging of coincident hits, tangency classification."
+        ),
+        note=NOTE_COMMON + "A4 as for C01.",
+    ),
+    "C03": dict(
+        technique=CONF + "; alpha-equivalence of the mirrored candidate loops; dimension order of the selection chain from inferred element types",
+        ref="DESIGN.md 3.1, 3 (C03)",
+        text=(
+            "Decides structural necessary conditions of C03: confinement of every return site of the three body x body "
+            "handlers; swap closure of the candidate collection (vertices of a in b and of b in a, alpha-equivalent; edge "
+            "crossings through the symmetric helper; faces of each polyhedron clipped by the other feeding the same sets); "
+            "result selection ordered by dimension and the cardinality ladders 0/1/2 points -> None/Point/Segment. NOT "
+            "decided: that the collected vertex set is the true one, Euler reassembly, hash deduplication, measures."
+        ),
+        note=NOTE_COMMON + "A4 as for C01.",
+    ),
+    "C06": dict(
+        technique="interprocedural homogeneity-degree abstract domain + cycle-loop lint + accumulation shape + monomial normal form of the pyramid formula (static analysis, ast)",
+        ref="DESIGN.md 3 (C06)",
+        text=(
+            "Decides four structural necessary conditions of C06 for all shapes: each of the 11 measure functions has the "
+            "homogeneity degree of a length / area / volume under scaling all coordinates (a dropped square root, a missing "
+            "or extra length factor, a sum of a length and an area are reported at the sub-expression); the vertex-cycle "
+            "loops cover all indices with a wrap-around successor; the polyhedron measures accumulate unconditionally over "
+            "the whole edge set (a set: each edge once) / face list / pyramid set with exactly one pyramid per face in "
+            "__init__ and move; the pyramid volume is 1/3 x height x base area in monomial normal form in both "
+            "Pyramid.volume and volume(), which sum the same pyramids. NOT decided: Heron / centroid-fan numerics to 1e-9, "
+            "independence from vertex and face order (runtime sort, C09)."
+        ),
+        note=NOTE_COMMON,
+    ),
+    "C12": dict(
+        technique=CONF + " over all 28 handlers, helpers and dispatcher; type-set evaluation of the None cases",
+        ref="DESIGN.md 3.1, 3 (C12)",
+        text=(
+            "Decides exactly two of C12's four laws for all operands: every vertex or end point of intersection(a, b) lies "
+            "in both a and b -- the confinement theorem over every return site of the 28 handlers, the 3 hit-set helpers "
+            "and the dispatcher, verified together (assume-guarantee over the mutual recursion); and None is absorbing "
+            "(abstract evaluation of the dispatcher with None in either position; no direct handler call can receive a "
+            "possibly-None argument). NOT decided: idempotence, a in b => intersection(a, b) == a, associativity (they "
+            "relate the results of different runtime computations)."
+        ),
+        note=NOTE_COMMON + "A4 as for C01.",
+    ),
     "C04": dict(
         technique="type-set abstract interpretation + dispatch-table evaluation + CFG dominance (static analysis, ast)",
         ref="DESIGN.md 3 (C04)",
